@@ -1,4 +1,5 @@
 import Memterm.Proofs.InvStep
+import Memterm.Spec.C07
 
 /-
   C07 — Erase operations blank exactly the documented cells with the current rendition.
@@ -7,36 +8,6 @@ namespace Memterm
 namespace C07
 
 open Gen
-
-/-- the documented set of erased cells, as a predicate on (row, column); `none` for
-    operations outside this property -/
-def region (s : Screen) : Call → Option (Nat → Nat → Bool)
-  | .eraseInDisplay how =>
-    some (match how.getD 0 with
-      | 0 => fun y x => decide (s.cursor.y < y) || (y == s.cursor.y && decide (s.cursor.x ≤ x))
-      | 1 => fun y x => decide (y < s.cursor.y) || (y == s.cursor.y && decide (x ≤ min s.cursor.x (s.columns - 1)))
-      | 2 => fun _ _ => true
-      | 3 => fun _ _ => true
-      | _ => fun _ _ => false)
-  | .eraseInLine how =>
-    some (match how.getD 0 with
-      | 0 => fun y x => y == s.cursor.y && decide (s.cursor.x ≤ x)
-      | 1 => fun y x => y == s.cursor.y && decide (x ≤ min s.cursor.x (s.columns - 1))
-      | 2 => fun y _ => y == s.cursor.y
-      | _ => fun _ _ => false)
-  | .eraseCharacters n =>
-    some (fun y x => y == s.cursor.y && decide (s.cursor.x ≤ x) && decide (x < s.cursor.x + nz n))
-  | _ => none
-
-/-- executable predicate: inside the region every cell is a space with the cursor's rendition,
-    every other cell, the cursor, modes, margins, tab stops are unchanged -/
-def propC07 (cands : List Nat) (pre : Screen) (c : Call) (post : Screen) : Bool :=
-  match region pre c with
-  | none => true
-  | some r =>
-    allCellsB pre.lines pre.columns (fun y x =>
-      decide (post.cell y x = if r y x then cursorCell pre else pre.cell y x)) &&
-    sameCursorSettingsB cands pre post
 
 /-! #### pointwise characterisations of the model -/
 
@@ -203,3 +174,4 @@ example :
 
 end C07
 end Memterm
+
